@@ -585,13 +585,26 @@ class TV:
                         del self.cert[ncert:]
                         continue
                     break
-                self.cert[ncert] = ("loop", head_pc, back_pc, inv.copy())
+                never_left_at_back_edge = nonzero(stb, stb.cell(cond, "i"))
                 if once:
+                    exitf = St()
                     st = stb
-                    if nonzero(stb, stb.cell(cond, "i")):
+                    if never_left_at_back_edge:
                         st = stb.copy(); st.bot = True      # the loop is never left
+                elif never_left_at_back_edge:
+                    # left only at its guard: what held before the loop still holds after it
+                    exitf = self.candidate(st, set(), set(), False, optimistic=True)
+                    while True:
+                        why = entails(st, exitf, self.M)
+                        if not why:
+                            break
+                        if not weaken(exitf, why):
+                            raise Reject("loop exit facts at %d: %s" % (pc, why))
+                    st = exitf
                 else:
+                    exitf = inv
                     st = inv
+                self.cert[ncert] = ("loop", head_pc, back_pc, inv.copy(), exitf.copy())
                 pc = exit_pc
             else:
                 self.stats["if"] += 1
@@ -674,7 +687,7 @@ def cert_text(cert):
     out = []
     for c in cert:
         if c[0] == "loop":
-            out.append("L %d %d %s" % (c[1], c[2], facts_text(c[3])))
+            out.append("L %d %d %s %s" % (c[1], c[2], facts_text(c[3]), facts_text(c[4])))
         else:
             out.append("F %s" % facts_text(c[1]))
     return " ".join(out)
